@@ -69,6 +69,9 @@ def universe():
     e('i_foreign', Op(13, V('subjects', [(1, R['g_id'])]), None, False, None, False, NONE, None))
     e('i_str', Op(13, V('subjects', [(0, 'name'), (1, R['a_name'])]), 'ix', True, None, False, NONE, None))
     e('note', Op(10, 'a note'))
+    # tI: alias equal to its OWN full name (D36) — appended last so that earlier slots keep their numbers
+    col('i_id', 'id')
+    e('tI', Op(14, 'self', 'public', 'public.self', [R['i_id']], [], NONE, None, None, False, []))
     return ops, R
 
 
@@ -76,7 +79,7 @@ def alphabet(R, level):
     """list of (label, [ops]) ; level 0 core (exhaustive), 1 extended (random)"""
     db = R['db']
     A = []
-    tabs = ['tA', 'tB', 'tC', 'tD', 'tE', 'tF', 'tG', 'tH']
+    tabs = ['tA', 'tB', 'tC', 'tD', 'tE', 'tF', 'tG', 'tH', 'tI']
     core_objs = ['tA', 'tB', 'tC', 'tE', 'tG', 'r1', 'r2', 'e1', 'e2', 'g1', 'g2', 'p1', 'p2', 's1']
     objs = tabs + ['r1', 'r2', 'r3', 'r4', 'e1', 'e2', 'e3', 'e4', 'g1', 'g2', 'g3', 's1', 's2', 'p1', 'p2', 'note', 'a_id']
     for o in (core_objs if level == 0 else objs):
